@@ -16,7 +16,7 @@ use vh::conv::*;
 struct Quiet;
 impl EventListener for Quiet {}
 
-fn build(dir: &PathBuf, src: &str, extra: &J, verbose: bool, tracing: &J) -> Result<Blueprint, String> {
+fn build(dir: &PathBuf, src: &str, extra: &J, verbose: bool, tracing: &J, all_types: bool) -> Result<Blueprint, String> {
     let _ = std::fs::remove_dir_all(dir);
     std::fs::create_dir_all(dir.join("validators")).map_err(|e| e.to_string())?;
     std::fs::write(
@@ -41,7 +41,7 @@ fn build(dir: &PathBuf, src: &str, extra: &J, verbose: bool, tracing: &J) -> Res
             false,
             if tracing.is_array() { vh::aikenrun::tracing_from(tracing)? } else { Tracing::All(if verbose { TraceLevel::Verbose } else { TraceLevel::Silent }) },
             path.clone(),
-            BlueprintExport::OnlyBinaryInterface,
+            if all_types { BlueprintExport::AllTypes } else { BlueprintExport::OnlyBinaryInterface },
             None,
         )
         .map_err(|es| format!("build: {}", es.iter().map(|e| format!("{e:?}")).collect::<Vec<_>>().join(" | ").chars().take(1500).collect::<String>()))?;
@@ -163,7 +163,8 @@ fn run_case(case: &J) -> J {
         guarded(move || serde_json::from_str::<Blueprint>(&t).map_err(|e| format!("load: {e}")))
     } else {
         let tracing = case["tracing"].clone();
-        guarded(move || build(&d2, &src, &extra, verbose, &tracing))
+        let all_types = case["all_types"].as_bool().unwrap_or(false);
+        guarded(move || build(&d2, &src, &extra, verbose, &tracing, all_types))
     };
     let bp = match built {
         Err(p) => return json!({"id": id, "build": {"panic": p}}),
